@@ -27,6 +27,10 @@
 
 #include "ares_private.h"
 
+#ifdef HAVE_LIMITS_H
+#  include <limits.h>
+#endif
+
 #ifdef HAVE_NETINET_IN_H
 #  include <netinet/in.h>
 #endif
@@ -90,7 +94,7 @@ ares_status_t ares_append_ai_node(int aftype, unsigned short port,
     node->ai_family  = AF_INET;
     node->ai_addrlen = sizeof(*sin);
     node->ai_addr    = (struct sockaddr *)sin;
-    node->ai_ttl     = (int)ttl;
+    node->ai_ttl     = (ttl > INT_MAX) ? INT_MAX : (int)ttl;
   }
 
   if (aftype == AF_INET6) {
@@ -108,7 +112,7 @@ ares_status_t ares_append_ai_node(int aftype, unsigned short port,
     node->ai_family  = AF_INET6;
     node->ai_addrlen = sizeof(*sin6);
     node->ai_addr    = (struct sockaddr *)sin6;
-    node->ai_ttl     = (int)ttl;
+    node->ai_ttl     = (ttl > INT_MAX) ? INT_MAX : (int)ttl;
   }
 
   return ARES_SUCCESS;
